@@ -47,18 +47,17 @@ def stepCommon {Θ Y : Type} {K N : Nat} (fam : Family Θ Y Float) (h : Hdr) (ti
     String × Mixture Θ Float (K+1) N :=
   let L := logLik fam s θ y
   let Lm := logLikMethod fam θ y
-  let γ := (memo2S (eStep tinyE fam θ y)).run
-  -- `emStep` = `mStep` of the tabulated E-step
+  let γ := tab2 (eStep tinyE fam θ y)
   let θ' := emStep tinyE fam h.rule tie epsE s y θ
-  (fmtFloats [L, Lm] ++ " | " ++ fmtFloats (fin2 γ) ++ " | " ++ fmtFloats (fin2 θ'.weight), θ')
+  (fmtFloats [L, Lm] ++ " | " ++ fmtFloats (fin2 (rd2 γ)) ++ " | " ++ fmtFloats (fin2 θ'.w), θ')
 
-def toMat {D : Nat} (m : Fin D → Fin D → CF) : Num.Mat :=
-  Array.ofFn (n := D) fun i => Array.ofFn (n := D) fun j => ⟨(m i j).re, (m i j).im⟩
+def toMat {D : Nat} (m : Tab D (Tab D CF)) : Num.Mat :=
+  Array.ofFn (n := D) fun i => Array.ofFn (n := D) fun j => ⟨(rd2 m i j).re, (rd2 m i j).im⟩
 
 /-- `np.linalg.eigh` replaced by the Jacobi routine of `Model/Num.lean` (ascending eigenvalues) -/
-def eighJacobi {D : Nat} (m : Fin D → Fin D → CF) : (Fin D → Fin D → CF) × (Fin D → Float) :=
+def eighJacobi {D : Nat} (m : Tab D (Tab D CF)) : Tab D (Tab D CF) × Tab D Float :=
   let r := Num.eigh D (toMat m)
-  ((memo2S fun i j => let c := r.2.get i.val j.val; (⟨c.re, c.im⟩ : CF)).run, (memoS fun e => r.1[e.val]!).run)
+  (tab2 fun i j => let c := r.2.get i.val j.val; (⟨c.re, c.im⟩ : CF), tab fun e => r.1[e.val]!)
 
 def opsEm (a : Array String) : Option String :=
   let h := hdr a
@@ -67,49 +66,48 @@ def opsEm (a : Array String) : Option String :=
   | _, 0 => none
   | K' + 1, F' + 1 =>
     let N := h.N; let D := h.D
-    let tie : Tying N := ⟨h.uniform, h.G + 1, (memoS fun n => Fin.ofNat (h.G + 1) (tokNat a (8 + n.val))).run⟩
-    let s : Fin N → Float := (memoS fun n => fl a (8 + 2 * N) n.val).run
-    let sl : Fin N → Fin (F' + 1) := (memoS fun n => Fin.ofNat (F' + 1) (tokNat a (8 + N + n.val))).run
+    let tie : Tying N := ⟨h.uniform, h.G + 1, tab fun n => Fin.ofNat (h.G + 1) (tokNat a (8 + n.val))⟩
+    let sT : Tab N Float := tab fun n => fl a (8 + 2 * N) n.val
+    let s : Fin N → Float := rd sT
+    let sl : Tab N (Fin (F' + 1)) := tab fun n => Fin.ofNat (F' + 1) (tokNat a (8 + N + n.val))
     let o := h.off
     match a[0]! with
     | "gmm-sph" =>
-      let yv : Fin N → Fin D → Float := (memo2S fun n d => fl a o (n.val * D + d.val)).run
-      let y : Fin N → Fin (F' + 1) × (Fin D → Float) := (memoS fun n => (sl n, yv n)).run
+      let yv : Tab N (Tab D Float) := tab2 fun n d => fl a o (n.val * D + d.val)
+      let yT : Tab N (Fin (F' + 1) × (Fin D → Float)) := tab fun n => (rd sl n, rd (rd yv n))
       let ow := o + N * D
       let om := ow + (K' + 1) * N
       let ov := om + (F' + 1) * (K' + 1) * D
       let fam := sliced (F := F' + 1) (sphFamily D tinyE log2piE)
-      let w := (memo2S fun (k : Fin (K' + 1)) (n : Fin N) => fl a ow (k.val * N + n.val)).run
-      let mu := (memo2S fun (k : Fin (K' + 1)) (f : Fin (F' + 1)) =>
-        (memoS fun (d : Fin D) => fl a om ((f.val * (K' + 1) + k.val) * D + d.val)).run).run
-      let vr := (memo2S fun (k : Fin (K' + 1)) (f : Fin (F' + 1)) => fl a ov (f.val * (K' + 1) + k.val)).run
-      let θ : Mixture (Fin (F' + 1) → SphG Float D) Float (K' + 1) N := ⟨w, fun k f => ⟨mu k f, vr k f⟩⟩
-      let (out, θ') := stepCommon fam h tie s y θ
+      let θ : Mixture (Tab (F' + 1) (SphG Float D)) Float (K' + 1) N :=
+        ⟨tab2 fun k n => fl a ow (k.val * N + n.val),
+         tab fun k => tab fun f => ⟨tab fun d => fl a om ((f.val * (K' + 1) + k.val) * D + d.val),
+                                    fl a ov (f.val * (K' + 1) + k.val)⟩⟩
+      let (out, θ') := stepCommon fam h tie s (rd yT) θ
       let means := (List.finRange (F' + 1)).flatMap fun f => (List.finRange (K' + 1)).flatMap fun k =>
-        (List.finRange D).map fun d => (θ'.comp k f).mean d
-      let vars := (List.finRange (F' + 1)).flatMap fun f => (List.finRange (K' + 1)).map fun k => (θ'.comp k f).var
+        (List.finRange D).map fun d => rd (rd (θ'.c k) f).mean d
+      let vars := (List.finRange (F' + 1)).flatMap fun f => (List.finRange (K' + 1)).map fun k => (rd (θ'.c k) f).var
       some (out ++ " | " ++ fmtFloats means ++ " | " ++ fmtFloats vars)
     | "gmm-diag" =>
-      let yv : Fin N → Fin D → Float := (memo2S fun n d => fl a o (n.val * D + d.val)).run
-      let y : Fin N → Fin (F' + 1) × (Fin D → Float) := (memoS fun n => (sl n, yv n)).run
+      let yv : Tab N (Tab D Float) := tab2 fun n d => fl a o (n.val * D + d.val)
+      let yT : Tab N (Fin (F' + 1) × (Fin D → Float)) := tab fun n => (rd sl n, rd (rd yv n))
       let ow := o + N * D
       let om := ow + (K' + 1) * N
       let ov := om + (F' + 1) * (K' + 1) * D
       let fam := sliced (F := F' + 1) (diagFamily D tinyE log2piE)
-      let w := (memo2S fun (k : Fin (K' + 1)) (n : Fin N) => fl a ow (k.val * N + n.val)).run
-      let mu := (memo2S fun (k : Fin (K' + 1)) (f : Fin (F' + 1)) =>
-        (memoS fun (d : Fin D) => fl a om ((f.val * (K' + 1) + k.val) * D + d.val)).run).run
-      let vr := (memo2S fun (k : Fin (K' + 1)) (f : Fin (F' + 1)) =>
-        (memoS fun (d : Fin D) => fl a ov ((f.val * (K' + 1) + k.val) * D + d.val)).run).run
-      let θ : Mixture (Fin (F' + 1) → DiagG Float D) Float (K' + 1) N := ⟨w, fun k f => ⟨mu k f, vr k f⟩⟩
-      let (out, θ') := stepCommon fam h tie s y θ
+      let θ : Mixture (Tab (F' + 1) (DiagG Float D)) Float (K' + 1) N :=
+        ⟨tab2 fun k n => fl a ow (k.val * N + n.val),
+         tab fun k => tab fun f => ⟨tab fun d => fl a om ((f.val * (K' + 1) + k.val) * D + d.val),
+                                    tab fun d => fl a ov ((f.val * (K' + 1) + k.val) * D + d.val)⟩⟩
+      let (out, θ') := stepCommon fam h tie s (rd yT) θ
       let means := (List.finRange (F' + 1)).flatMap fun f => (List.finRange (K' + 1)).flatMap fun k =>
-        (List.finRange D).map fun d => (θ'.comp k f).mean d
+        (List.finRange D).map fun d => rd (rd (θ'.c k) f).mean d
       let vars := (List.finRange (F' + 1)).flatMap fun f => (List.finRange (K' + 1)).flatMap fun k =>
-        (List.finRange D).map fun d => (θ'.comp k f).var d
+        (List.finRange D).map fun d => rd (rd (θ'.c k) f).var d
       some (out ++ " | " ++ fmtFloats means ++ " | " ++ fmtFloats vars)
     | "watson" =>
-      let y : Fin N → Fin D → CF := (memo2S fun n d => cx a o (n.val * D + d.val)).run
+      let yT : Tab N (Tab D CF) := tab2 fun n d => cx a o (n.val * D + d.val)
+      let y : Fin N → Fin D → CF := fun n => rd (rd yT n)
       let ow := o + 2 * N * D
       let om := ow + (K' + 1) * N
       let ok := om + 2 * (K' + 1) * D
@@ -117,18 +115,15 @@ def opsEm (a : Array String) : Option String :=
       -- the externals of the M-step are not evaluated here: the scatter matrices are printed instead and the
       -- harness checks the PCA / spline contract of the code's next iterate against them
       let fam : Family (Watson Float CF D) (Fin D → CF) Float :=
-        watsonFamily D (fun _ => (fun _ => 0, 0)) (fun x => x) (fun x => x)
-      let w := (memo2S fun (k : Fin (K' + 1)) (n : Fin N) => fl a ow (k.val * N + n.val)).run
-      let md := (memo2S fun (k : Fin (K' + 1)) (d : Fin D) => cx a om (k.val * D + d.val)).run
+        watsonFamily D (fun _ => (tab fun _ => 0, 0)) (fun x => x) (fun x => x)
       let θ : Mixture (Watson Float CF D) Float (K' + 1) N :=
-        ⟨w, (memoS fun k => (⟨md k, fl a ok k.val, fl a ol k.val⟩ : Watson Float CF D)).run⟩
+        ⟨tab2 fun k n => fl a ow (k.val * N + n.val),
+         tab fun k => ⟨tab fun d => cx a om (k.val * D + d.val), fl a ok k.val, fl a ol k.val⟩⟩
       let (out, _) := stepCommon fam h tie s y θ
-      let γ := (memo2S (eStep tinyE fam θ y)).run
+      let γ := tab2 (eStep tinyE fam θ y)
       let covs := (List.finRange (K' + 1)).flatMap fun k =>
-        let wk : Fin N → Float := (memoS fun n => γ k n * s n).run
-        let den : CF := ⟨vsum wk, 0⟩
-        let sc := outerSum (α := Float) wk y
-        (List.finRange D).flatMap fun d => (List.finRange D).flatMap fun e => cxs (sc d e / den)
+        let sc := watsonScatter (α := Float) (fun n => rd2 γ k n * s n) y
+        (List.finRange D).flatMap fun d => (List.finRange D).flatMap fun e => cxs (rd2 sc d e)
       some (out ++ " | " ++ fmtFloats covs)
     | "cacg" =>
       match D with
@@ -137,23 +132,25 @@ def opsEm (a : Array String) : Option String :=
         let nrm : CovNorm := match tokNat a o with | 0 => .eigenvalue | 1 => .trace | _ => .none
         let floor := tokFloat a (o + 1)
         let oz := o + 2
-        let z : Fin N → Fin (D' + 1) → CF := (memo2S fun n d => cx a oz (n.val * (D' + 1) + d.val)).run
+        let zT : Tab N (Tab (D' + 1) CF) := tab2 fun n d => cx a oz (n.val * (D' + 1) + d.val)
+        let z : Fin N → Fin (D' + 1) → CF := fun n => rd (rd zT n)
         let ow := oz + 2 * N * (D' + 1)
         let ou := ow + (K' + 1) * N
         let ol := ou + 2 * (K' + 1) * (D' + 1) * (D' + 1)
         let fam := cacgFamily D' (eighJacobi (D := D' + 1)) nrm floor tinyE
-        let w := (memo2S fun (k : Fin (K' + 1)) (n : Fin N) => fl a ow (k.val * N + n.val)).run
         let θ : Mixture (Cacg Float CF (D' + 1)) Float (K' + 1) N :=
-          ⟨w, (memoS fun k => (⟨(memo2S fun d e => cx a ou ((k.val * (D' + 1) + d.val) * (D' + 1) + e.val)).run,
-                                (memoS fun e => fl a ol (k.val * (D' + 1) + e.val)).run⟩ : Cacg Float CF (D' + 1))).run⟩
+          ⟨tab2 fun k n => fl a ow (k.val * N + n.val),
+           tab fun k => ⟨tab2 fun d e => cx a ou ((k.val * (D' + 1) + d.val) * (D' + 1) + e.val),
+                         tab fun e => fl a ol (k.val * (D' + 1) + e.val)⟩⟩
         let (out, θ') := stepCommon fam h tie s z θ
         let q := fin2 (eAux fam θ z)
-        let vals := (List.finRange (K' + 1)).flatMap fun k => (List.finRange (D' + 1)).map fun e => (θ'.comp k).vals e
+        let vals := (List.finRange (K' + 1)).flatMap fun k => (List.finRange (D' + 1)).map fun e => rd (θ'.c k).vals e
         -- gauge-free: the covariance `U diag(λ) Uᴴ`
         let cov := (List.finRange (K' + 1)).flatMap fun k =>
-          let c := θ'.comp k
+          let c := θ'.c k
           (List.finRange (D' + 1)).flatMap fun d => (List.finRange (D' + 1)).flatMap fun g =>
-            cxs (vsum fun e => c.vecs d e * (⟨c.vals e, 0⟩ : CF) * (⟨(c.vecs g e).re, -(c.vecs g e).im⟩ : CF))
+            cxs (vsum fun e => rd2 c.vecs d e * (⟨rd c.vals e, 0⟩ : CF)
+                  * (⟨(rd2 c.vecs g e).re, -(rd2 c.vecs g e).im⟩ : CF))
         some (out ++ " | " ++ fmtFloats q ++ " | " ++ fmtFloats vals ++ " | " ++ fmtFloats cov)
     | _ => none
 
